@@ -95,7 +95,7 @@ def gen_case(rng, i, neutral_only=False):
     opt_col = None
     if rng.random() < 0.3:
         # one more column that also holds None (NULL): it is counted, collected or picked (COUNT / ARRAY_AGG / ANY_VALUE arguments) or selected as a plain column
-        pool = rng.choice([['x', 'y', None, None], ['x', 'y', None, None], [None, 'x'], [None]])
+        pool = rng.choice([['x', 'y', None, None], ['x', 'y', None, None], [None, 'x'], [None], [None, 'null', 'None'], [None, 'null', 'None', 'undefined', '']])    # a missing cell next to its own spellings
         for r in A:
             r.append(rng.choice(pool))
         opt_col = width
